@@ -19,11 +19,10 @@ mod verif_c13_native {
     use pnet::util::MacAddr;
     #[test]
     fn verif_c13_native() {
-        let hex = match std::env::var("VERIF_C13_REQ") {
+        let all = match std::env::var("VERIF_C13_REQ") {
             Ok(h) => h,
             Err(_) => return,
         };
-        let data: Vec<u8> = (0..hex.len() / 2).map(|i| u8::from_str_radix(&hex[2 * i..2 * i + 2], 16).unwrap()).collect();
         let masscanned = Masscanned {
             synack_key: [0, 0],
             mac: MacAddr::new(0, 1, 2, 3, 4, 5),
@@ -33,11 +32,15 @@ mod verif_c13_native {
             log: MetaLogger::new(),
         };
         let ci = ClientInfo::new();
-        match repl(&data, &masscanned, &ci, None) {
-            None => println!("VERIF_C13_RESP=none"),
-            Some(r) => {
-                let h: String = r.iter().map(|b| format!("{:02x}", b)).collect();
-                println!("VERIF_C13_RESP={}", h);
+        // comma-separated list of hex-encoded requests, one answer line each (same order)
+        for hex in all.split(',') {
+            let data: Vec<u8> = (0..hex.len() / 2).map(|i| u8::from_str_radix(&hex[2 * i..2 * i + 2], 16).unwrap()).collect();
+            match repl(&data, &masscanned, &ci, None) {
+                None => println!("VERIF_C13_RESP=none"),
+                Some(r) => {
+                    let h: String = r.iter().map(|b| format!("{:02x}", b)).collect();
+                    println!("VERIF_C13_RESP={}", h);
+                }
             }
         }
     }
